@@ -185,9 +185,12 @@ def _derived_task(idx):
                 for opn, op in OPS6:
                     _loud(part, "C05:derived %s:%s" % (opn, names), lambda: op(sa, sb), {"a": repr(sa), "b": repr(sb)}, sn % opn)
                 qa, qb = sa.GetQuantity(), sb.GetQuantity()
-                for kind, mk in (("list", list), ("ndarray", np.array)):
+                for kind, mk in (("list", list), ("ndarray", np.array), ("tuple", tuple)):
                     for opn, op in OPS6[:2]:
                         _loud(part, "C05:derived-array-%s %s:%s" % (kind, opn, names), lambda: op(Array(qa, mk([1.0, 2.0])), Array(qb, mk([3.0, 4.0]))), {"a": repr(sa), "b": repr(sb)})
+                        # ... also when there is nothing to add: the dimensions of EMPTY arrays are compared as well
+                        _loud(part, "C05:derived-array-%s (empty) %s:%s" % (kind, opn, names), lambda: op(Array(qa, mk([])), Array(qb, mk([]))), {"a": repr(sa), "b": repr(sb)})
+                        _loud(part, "C05:derived-array-%s (one element) %s:%s" % (kind, opn, names), lambda: op(Array(qa, mk([1.0])), Array(qb, mk([3.0]))), {"a": repr(sa), "b": repr(sb)})
                 if c13.snap(sa) != snap_a:
                     part.violation("C05:operand-changed:" + names, {"before": snap_a, "after": c13.snap(sa)})
     return part
